@@ -1061,12 +1061,98 @@ def _named_constants(model, f, node) -> bool:
     T().visit(node)
     return changed[0]
 
+# ---------------------------------------------------------------------------------------------------------------------------
+# functools.reduce over a generator  ->  the accumulating loop
+
+_REDUCE_OPS = {"or_": ast.BitOr, "and_": ast.BitAnd, "xor": ast.BitXor, "add": ast.Add, "mul": ast.Mult}
+
+
+def _reduce_to_loop(node) -> bool:
+    """`x = reduce(or_, (E for i in IT), INIT)`  (also `return reduce(..)`, also through a local bound once to the generator)
+       ->  `_acc = INIT; for i in IT: _acc = _acc | E; x = _acc`"""
+    changed = [False]
+    counter = [0]
+    binds: dict = {}
+    uses: dict = {}
+    for n in ast.walk(node):
+        if isinstance(n, ast.Name):
+            (binds if isinstance(n.ctx, (ast.Store, ast.Del)) else uses).setdefault(n.id, []).append(n)
+
+    def op_of(f: ast.AST):
+        nm = f.id if isinstance(f, ast.Name) else f.attr if isinstance(f, ast.Attribute) and isinstance(f.value, ast.Name) and f.value.id == "operator" else None
+        if nm in _REDUCE_OPS:
+            return _REDUCE_OPS[nm]
+        if isinstance(f, ast.Lambda) and len(f.args.args) == 2 and isinstance(f.body, ast.BinOp) and isinstance(f.body.left, ast.Name) \
+                and isinstance(f.body.right, ast.Name) and f.body.left.id == f.args.args[0].arg and f.body.right.id == f.args.args[1].arg:
+            return type(f.body.op)
+        return None
+
+    def rewrite_block(stmts: list) -> list:
+        out: list = []
+        pending_gen: dict = {}
+        for st in stmts:
+            for fld in ("body", "orelse", "finalbody"):
+                v = getattr(st, fld, None)
+                if isinstance(v, list) and v and isinstance(v[0], ast.stmt) and not isinstance(st, (ast.FunctionDef, ast.ClassDef)):
+                    setattr(st, fld, rewrite_block(v))
+            if isinstance(st, ast.Try):
+                for h in st.handlers:
+                    h.body = rewrite_block(h.body)
+            # g = (E for ..)  bound once, used once: remembered for the reduce that consumes it
+            if isinstance(st, ast.Assign) and len(st.targets) == 1 and isinstance(st.targets[0], ast.Name) and isinstance(st.value, (ast.GeneratorExp, ast.ListComp)) \
+                    and len(binds.get(st.targets[0].id, [])) == 1 and len(uses.get(st.targets[0].id, [])) == 1:
+                pending_gen[st.targets[0].id] = (st, len(out))
+                out.append(st)
+                continue
+            call = st.value if isinstance(st, (ast.Assign, ast.Return)) and isinstance(getattr(st, "value", None), ast.Call) else None
+            if call is not None:
+                f = call.func
+                is_reduce = (isinstance(f, ast.Name) and f.id == "reduce") or (isinstance(f, ast.Attribute) and f.attr == "reduce" and isinstance(f.value, ast.Name)
+                                                                                and f.value.id == "functools")
+                if is_reduce and len(call.args) == 3 and not call.keywords:
+                    op = op_of(call.args[0])
+                    gen = call.args[1]
+                    drop_at = None
+                    if isinstance(gen, ast.Name) and gen.id in pending_gen:
+                        gst, drop_at = pending_gen[gen.id]
+                        gen = gst.value
+                    if op is not None and isinstance(gen, (ast.GeneratorExp, ast.ListComp)) and len(gen.generators) == 1 and not gen.generators[0].is_async:
+                        g0 = gen.generators[0]
+                        counter[0] += 1
+                        acc = f"_red{counter[0]}"
+                        body: list = [ast.Assign(targets=[ast.Name(id=acc, ctx=ast.Store())],
+                                                 value=ast.BinOp(left=ast.Name(id=acc, ctx=ast.Load()), op=op(), right=gen.elt), lineno=st.lineno)]
+                        for c in reversed(g0.ifs):
+                            body = [ast.If(test=c, body=body, orelse=[])]
+                        loop = ast.For(target=g0.target, iter=g0.iter, body=body, orelse=[], lineno=st.lineno)
+                        init = ast.Assign(targets=[ast.Name(id=acc, ctx=ast.Store())], value=call.args[2], lineno=st.lineno)
+                        fin: ast.stmt
+                        if isinstance(st, ast.Return):
+                            fin = ast.Return(value=ast.Name(id=acc, ctx=ast.Load()))
+                        else:
+                            fin = ast.Assign(targets=st.targets, value=ast.Name(id=acc, ctx=ast.Load()), lineno=st.lineno)
+                        if drop_at is not None:
+                            out[drop_at] = None  # type: ignore[call-overload]
+                        for x in (init, loop, fin):
+                            ast.copy_location(x, st)
+                            ast.fix_missing_locations(x)
+                            out.append(x)
+                        changed[0] = True
+                        continue
+            out.append(st)
+        return [x for x in out if x is not None]
+
+    node.body = rewrite_block(node.body)
+    return changed[0]
+
 
 def canonicalise(model, f) -> bool:
     """Rewrite f.node in place (a copy); returns True when something changed."""
     tables = Tables(model, f)
     node = copy.deepcopy(f.node)
     named = _named_constants(model, f, node)
+    if any(isinstance(n, (ast.Name, ast.Attribute)) and (getattr(n, "id", None) == "reduce" or getattr(n, "attr", None) == "reduce") for n in ast.walk(node)):
+        named = _reduce_to_loop(node) or named
     ex = _Expr(tables)
     # statement level first on the original expressions (so `a, b = T[k]` is still a subscript), then expressions
     st = _Stmt(tables)
